@@ -15,6 +15,7 @@ import (
 	abcitypes "github.com/tendermint/tendermint/abci/types"
 	"github.com/tendermint/tendermint/libs/json"
 	"github.com/tendermint/tendermint/libs/log"
+	"math"
 	"strconv"
 	"strings"
 	"sync"
@@ -194,8 +195,25 @@ func (ctrler *GovCtrler) ValidateTrx(ctx *ctrlertypes.TrxContext) xerrors.XError
 			//check options
 			checkGovParams := &ctrlertypes.GovParams{}
 			for _, option := range txpayload.Options {
-				if err := json.Unmarshal(option, checkGovParams); err != nil {
+				// the option MUST be parsable in the form in which applyProposals() will parse it,
+				// and MUST NOT carry values that block processing cannot work with;
+				// otherwise the winning option stops every node at its applying height.
+				strOpt := string(option)
+				if strings.HasSuffix(strOpt, `""}`) {
+					strOpt = strings.ReplaceAll(strOpt, `""}`, `"}`)
+				}
+				if err := json.Unmarshal([]byte(strOpt), checkGovParams); err != nil {
 					return xerrors.ErrInvalidTrxPayloadParams.Wrap(err)
+				}
+				if checkGovParams.MaxValidatorCnt() < 0 {
+					return xerrors.ErrInvalidTrxPayloadParams.Wrapf("wrong maxValidatorCnt: %v", checkGovParams.MaxValidatorCnt())
+				}
+				maxStake := ctrlertypes.PowerToAmount(math.MaxInt64)
+				if v := checkGovParams.MinValidatorStake(); v != nil && v.Cmp(maxStake) > 0 {
+					return xerrors.ErrInvalidTrxPayloadParams.Wrapf("too large minValidatorStake")
+				}
+				if v := checkGovParams.MinDelegatorStake(); v != nil && v.Cmp(maxStake) > 0 {
+					return xerrors.ErrInvalidTrxPayloadParams.Wrapf("too large minDelegatorStake")
 				}
 			}
 		}
